@@ -251,6 +251,7 @@ func (r *runner) step(advance int64, cases ...txCase) *txkit.Obs {
 			}
 		default:
 			r.c.Count("accepted", 1)
+			r.kept = append(r.kept, txCase{kind: tc.kind, bytes: tc.bytes})
 			r.c.Count("accepted:"+tc.kind, 1)
 			if tc.mut != "" {
 				r.c.Count("accepted_variant:"+mclass, 1)
